@@ -227,6 +227,26 @@ def block_dist(rng, blk, wg, wf, w, x):
     nx = math.sqrt(float(np.sum(x * x)))
     if nx > 0:
         cands += [x / nx, -x / nx]
+    # where the penalty is differentiable the optimal direction is (x - grad phi(w)) normalised; on the
+    # boundary of the positive orthant the components that would leave it are clipped
+    gnum = np.zeros(k)
+    okg = True
+    for i in range(k):
+        e = np.zeros(k)
+        e[i] = 1e-6
+        fp, fm = blk.ref_pen(w + e, wg, wf), blk.ref_pen(w - e, wg, wf)
+        if math.isinf(fp):
+            okg = False
+            break
+        gnum[i] = (fp - fm) / 2e-6 if not math.isinf(fm) else (fp - f0) / 1e-6
+    if okg:
+        for clip in (False, True):
+            d = x - gnum
+            if clip:
+                d = np.where((w == 0) & (d < 0), 0.0, d)
+            nd = math.sqrt(float(np.sum(d * d)))
+            if nd > 0:
+                cands.append(d / nd)
     for _ in range(120):
         d = np.array([rng.gauss(0, 1) for _ in range(k)])
         cands.append(d / max(1e-12, math.sqrt(float(np.sum(d * d)))))
@@ -324,7 +344,7 @@ def run_blocks(ctx, rep):
             continue          # every vector is a regular sub-gradient at the zero row: score 0
         lb, est = block_dist(rng, blk, wg, wf, w, -g)
         ok = (math.isinf(lb) and math.isinf(r)) or (not math.isinf(lb) and not math.isinf(r)
-                                                    and r >= lb - 1e-5 * (1 + lb) and r <= est + 3e-3 * (1 + est))
+                                                    and r >= lb - 1e-5 * (1 + lb) and r <= est + 1e-2 * (1 + est))
         if not ok:
             rep.violate(f"{site} is not the distance from -grad to the sub-differential of the documented penalty",
                         dict(sig, kind="not-distance"), input=dict(inp, block_w=w.tolist(), block_grad=g.tolist(),
